@@ -106,6 +106,14 @@ def case_size(case: dict) -> int:
 def shrinks(case: dict):
     from sim.history import shrink_history
 
+    if case.get("sessions"):
+        from sim.history import shrink_sessions
+
+        for sess in shrink_sessions(case["sessions"])[:32]:
+            c = copy.deepcopy(case)
+            c["sessions"] = sess
+            yield c
+        return
     hist = case.get("history")
     if not hist:
         return
@@ -265,7 +273,13 @@ def _zy_invariant(paths: dict, dirty: list, ops: list, op: list):
     return None
 
 
-ZYGOTE_HANDLERS = dict(fresh=_zy_fresh, invariant=_zy_invariant)
+def _zy_single(case: dict, ops: list):
+    """The failing history alone, in a pristine process: the signature it yields, or None."""
+    res = run_case(dict(case, history=ops, sessions=None))
+    return res.get("signature") if res.get("verdict") == "violation" else None
+
+
+ZYGOTE_HANDLERS = dict(fresh=_zy_fresh, invariant=_zy_invariant, single=_zy_single)
 
 
 class Model:
@@ -600,7 +614,22 @@ def run_case(case: dict) -> dict:
             return dict(verdict="discard", detail="degenerate scene (empty centre/bin)", runs=0)
         fresh: dict = {}
         violation = None
-        if case.get("history") is not None:
+        if case.get("sessions"):
+            # several sessions, one after the other in this process (module-level state of the
+            # library survives from one into the next); the last one is the failing one
+            for hist in case["sessions"]:
+                model = Model(case, tpl, tempfile.mkdtemp(prefix="ex-", dir=root), fresh, rec, zy)
+                try:
+                    for op in hist:
+                        model.apply(op)
+                except HistoryViolation as err:
+                    violation = (list(model.ops), err)
+                finally:
+                    model.close()
+                rec.finish_example(model.ops, model.outcomes)
+                if violation is not None:
+                    break
+        elif case.get("history") is not None:
             model = Model(case, tpl, tempfile.mkdtemp(prefix="ex-", dir=root), fresh, rec, zy)
             try:
                 for op in case["history"]:
@@ -633,7 +662,19 @@ def run_case(case: dict) -> dict:
         )
         if violation is not None:
             ops, err = violation
-            res.update(signature=err.signature, detail=err.detail, tail=ops, history=ops)
+            res.update(signature=err.signature, detail=err.detail, tail=ops)
+            if case.get("sessions"):
+                res.update(sessions=[list(h) for h in rec.histories])
+            elif case.get("history") is not None:
+                res.update(history=ops)
+            else:
+                from sim.history import replay_form
+
+                def single(c, o):
+                    r = zy.call("single", c, o, timeout=240)
+                    return r[1] if r[0] == "ok" else None
+
+                res.update(replay_form(case, ops, err.signature, rec, single))
         return res
     finally:
         from sim import procstate
